@@ -98,6 +98,12 @@ def gen_base(rng, tier, index):
         # "everything in one chunk" spelled as a huge chunk size; an input whose length hint is too large
         calls[0].update(chunk=calls[0]["n"] + 5, chunk_special=["maxsize", "huge", "inf"][(index // 16 + index) % 3], form="hinted")
         calls[0].pop("durations", None)
+    if index % 16 == 4 and calls and kind == "fmap":
+        calls[0]["n"] = max(calls[0]["n"], 4)
+        calls[0]["first_next_in_thread"] = True     # the first result taken by a helper thread, the rest by the caller
+    if index % 16 == 7 and calls:
+        calls[0].update(form="callable_iter", n=max(calls[0]["n"], 4))       # an iterable that is callable as well
+        calls[0].pop("slow", None)
     if index % 16 == 2 and calls:
         # an input whose __length_hint__ over-estimates, through mul_p_map (base 2) as well
         calls[0].update(form="hinted", n=max(calls[0]["n"], 5))
